@@ -103,34 +103,55 @@ static Verdict run_c18(const Case &c)
         reuse = "streams " + std::to_string(s) + " and " + std::to_string(t2) + " were started from the same IV " + hex(start[s]);
         break;
       }
-  // (c) consequences: keystream reuse in CTR/OFB, equal plaintext chunks -> equal ciphertext chunks
-  std::string conseq;
+  // (c) consequences: keystream reuse in CTR/OFB, equal plaintext chunks -> equal ciphertext chunks.
+  // The known finding (every stream starts from slot 0) explains exactly the collisions between DIFFERENT
+  // streams at the SAME position within their streams; anything else (reuse inside one stream, or at different
+  // positions) is not covered by it and is reported whether or not the finding is listed.
+  std::string conseq, unexplained;
+  size_t bpc = (size_t)e.chunk / 16; // blocks per chunk
+  auto where = [&](size_t blk, size_t &stream, size_t &idx) {
+    size_t ch = blk / bpc;
+    stream = ch % (size_t)e.T;
+    idx = (ch / (size_t)e.T) * bpc + blk % bpc; // block ordinal within its stream
+  };
   if (e.cmode == 2 || e.cmode == 4)
   {
-    std::set<std::string> ks;
+    std::map<std::string, size_t> ks;
     for (size_t o = 0; o + 16 <= pp.size(); o += 16)
     {
       uint8_t x[16];
       for (int i = 0; i < 16; i++)
         x[i] = a.out[body + o + i] ^ pp[o + i];
-      if (!ks.insert(hex(x, 16)).second)
+      auto ins = ks.insert({hex(x, 16), o / 16});
+      if (!ins.second)
       {
-        conseq = "the keystream block at body offset " + std::to_string(o) + " is used for a second plaintext block";
-        break;
+        size_t s1, i1, s2, i2;
+        where(ins.first->second, s1, i1);
+        where(o / 16, s2, i2);
+        std::string m = "the keystream block of body block " + std::to_string(ins.first->second) + " (stream " + std::to_string(s1) + ", position " + std::to_string(i1) + ") is used again for body block " + std::to_string(o / 16) + " (stream " + std::to_string(s2) + ", position " + std::to_string(i2) + ")";
+        if (conseq.empty())
+          conseq = m;
+        if ((s1 == s2 || i1 != i2) && unexplained.empty())
+          unexplained = m;
       }
     }
   }
-  if (conseq.empty())
-    for (size_t i = 0; i < nch && conseq.empty(); i++)
-      for (size_t j = i + 1; j < nch; j++)
+  for (size_t i = 0; i < nch; i++)
+    for (size_t j = i + 1; j < nch; j++)
+    {
+      size_t li = std::min<size_t>(e.chunk, pp.size() - i * e.chunk), lj = std::min<size_t>(e.chunk, pp.size() - j * e.chunk);
+      if (li == lj && li >= 16 && memcmp(pp.data() + i * e.chunk, pp.data() + j * e.chunk, li) == 0 && memcmp(a.out.data() + body + i * e.chunk, a.out.data() + body + j * e.chunk, li) == 0)
       {
-        size_t li = std::min<size_t>(e.chunk, pp.size() - i * e.chunk), lj = std::min<size_t>(e.chunk, pp.size() - j * e.chunk);
-        if (li == lj && li >= 16 && memcmp(pp.data() + i * e.chunk, pp.data() + j * e.chunk, li) == 0 && memcmp(a.out.data() + body + i * e.chunk, a.out.data() + body + j * e.chunk, li) == 0)
-        {
-          conseq = "equal plaintext chunks " + std::to_string(i) + " and " + std::to_string(j) + " produced equal ciphertext chunks";
-          break;
-        }
+        std::string m = "equal plaintext chunks " + std::to_string(i) + " and " + std::to_string(j) + " produced equal ciphertext chunks";
+        if (conseq.empty())
+          conseq = m;
+        bool same_round_other_stream = (i / (size_t)e.T == j / (size_t)e.T);
+        if (!same_round_other_stream && unexplained.empty())
+          unexplained = m + " (chunks of the same stream, or at different positions of their streams)";
       }
+    }
+  if (!unexplained.empty())
+    return bad(unexplained);
   if (reuse.empty() && conseq.empty())
     return v;
   // known finding D9: every stream is constructed from header slot 0
